@@ -31,4 +31,33 @@ def runRepLayout (j : Json) : R Json := do
     ("triangles", Json.arr #[Json.arr (tri.toArray.map fun t => natJ t.1), Json.arr (tri.toArray.map fun t => natJ t.2.1), Json.arr (tri.toArray.map fun t => natJ t.2.2)]),
     ("output_size", natJ size)])
 
+/-- the assembled representation end to end: `{"components", "n1", "m2": ["distance" | "angle" …], "m3": ["inner_angle" | "point_line" …], "shape": [B, L, N, C],
+    "data": f64 bits row-major (B, L, N, C), "valid": 0/1 row-major (B, L, N)}` → `{"ok", "shape": [B, L, E], "values": f64 bits}` or `{"ok": false}` (constructor raises) -/
+def runRepForward (j : Json) : R Json := do
+  let comps ← (← (← j.getObjVal? "components").getArr?).toList.mapM compOfJson
+  let n1 := (j.getObjValAs? Nat "n1").toOption.getD 0
+  let m2 ← (← (← j.getObjVal? "m2").getArr?).toList.mapM fun m => do
+    match (← m.getStr?) with
+    | "distance" => pure Rep2.distance
+    | "angle" => pure Rep2.angle
+    | s => throw s!"unknown limb module {s}"
+  let m3 ← (← (← j.getObjVal? "m3").getArr?).toList.mapM fun m => do
+    match (← m.getStr?) with
+    | "inner_angle" => pure Rep3.innerAngle
+    | "point_line" => pure Rep3.pointLine
+    | s => throw s!"unknown triple module {s}"
+  let shape ← getNatArr (← j.getObjVal? "shape")
+  let B := shape.getD 0 0; let L := shape.getD 1 0; let N := shape.getD 2 0; let C := shape.getD 3 0
+  let data ← (← (← j.getObjVal? "data").getArr?).toList.mapM f64OfJson
+  let valid ← getNatArr (← j.getObjVal? "valid")
+  let dataA := data.toArray; let validA := valid.toArray
+  -- (points, batch, len, dims) view
+  let pts : List (List (List (List (MV Float)))) := (List.range N).map fun n => (List.range B).map fun b => (List.range L).map fun l =>
+    (List.range C).map fun c => (dataA.getD (((b * L + l) * N + n) * C + c) 0.0, validA.getD ((b * L + l) * N + n) 0 != 0)
+  match poseRepresentation floatScalar Float.atan Float.acos comps n1 m2 m3 pts B L with
+  | none => pure (Json.mkObj [("ok", Json.bool false)])
+  | some out =>
+    let E := ((out.headD []).headD []).length
+    pure (Json.mkObj [("ok", Json.bool true), ("shape", Json.arr #[natJ B, natJ L, natJ E]), ("values", Json.arr (out.flatten.flatten.toArray.map f64J))])
+
 end PoseVerif.Driver
